@@ -27,6 +27,11 @@ type graph struct {
 	// successThresholdSinks specifies how many sinks must successfully process
 	// an event for Process to not return an error.
 	successThresholdSinks int
+
+	// thresholdLock guards successThreshold and successThresholdSinks: process
+	// reads them without holding the Broker's lock, while the Broker's setters
+	// may change them at any time.
+	thresholdLock sync.RWMutex
 }
 
 // Process the Event by routing it through all of the graph's nodes,
@@ -68,7 +73,10 @@ func (g *graph) process(ctx context.Context, e *Event) (Status, error) {
 			}
 		}
 	}
-	return status, status.getError(ctx.Err(), g.successThreshold, g.successThresholdSinks)
+	g.thresholdLock.RLock()
+	threshold, thresholdSinks := g.successThreshold, g.successThresholdSinks
+	g.thresholdLock.RUnlock()
+	return status, status.getError(ctx.Err(), threshold, thresholdSinks)
 }
 
 // Recursively process every node in the graph.
